@@ -805,6 +805,7 @@ static void generate(Plan &plan, uint64_t seed, int tier) {
         // Sort, many rehashes), holes in it, then the operations that rebuild or extend it. Keys are distinct texts
         // with shared prefixes; bulk phases are checked once, at their end.
         plan.cfg["scenario"] = 2;
+        plan.cfg["soft_budget"] = 1; // (legitimately heavy: see the value world's large-container scenario)
         int  j    = (int)cfg.below(3);
         auto push = [&](int kind, const U32 &k1, int64_t a2, bool light) {
             Op op;
